@@ -209,7 +209,7 @@ def _sym_expr_access_type(
     Determines how a symbol is used in a symbolic expression.
     """
 
-    assert block.address
+    assert block.address is not None
 
     expr_addr = block.address + offset
     if isinstance(block, gtirb.CodeBlock):
